@@ -638,7 +638,7 @@ def function(
     )
 
     function_name = function_name or intermediate_repr["name"]
-    function_type = function_type or intermediate_repr["type"]
+    function_type = function_type or intermediate_repr.get("type")
 
     args = (
         [] if function_type in frozenset((None, "static")) else [set_arg(function_type)]
